@@ -7,6 +7,13 @@
 (* d.ddd...e(exp), takes the float64 nearest to it and uses that float as a leaf (top level, array element, member value). *)
 EXTENDS Integers, Sequences, TLC, Json
 CONSTANTS Sigs, Exps, Pats
+\* (negative numbers cannot be written in a .cfg file: the universes are operators, chosen with Exps <- ExpsQuick)
+SigsQuick == {1, 15, 16, 17}
+ExpsQuick == {-324, -300, -7, -6, -5, -4, -1, 0, 15, 16, 20, 21, 300, 308}
+PatsQuick == {"mixed", "nines"}
+SigsFull  == {1, 2, 8, 15, 16, 17}
+ExpsFull  == {-324, -323, -310, -300, -100, -20, -8, -7, -6, -5, -4, -3, -2, -1, 0, 1, 5, 14, 15, 16, 17, 18, 19, 20, 21, 22, 100, 300, 308}
+PatsFull  == {"mixed", "nines", "ones"}
 Classes == [sig : Sigs, exp : Exps, neg : BOOLEAN, pat : Pats]
 VARIABLE cls
 Init == cls \in Classes
